@@ -304,6 +304,50 @@ def op_ts_naive_summer(fa, c, k):
     return out
 
 
+_REPO_DIR = []
+
+
+def _repo_dir():
+    """Per-process directory with a parent schema file that refers twice to a type kept in its own file."""
+    if not _REPO_DIR:
+        import atexit
+        import json
+        import shutil
+        import tempfile
+
+        d = tempfile.mkdtemp(prefix="verif-c18-")
+        atexit.register(shutil.rmtree, d, True)
+        files = {"c18r.Parent": {"type": "record", "name": "Parent", "namespace": "c18r", "fields": [{"name": "a", "type": "Child"}, {"name": "b", "type": ["null", "c18r.Child"]}, {"name": "k", "type": "Kind"}]},
+                 "c18r.Child": {"type": "record", "name": "Child", "namespace": "c18r", "fields": [{"name": "x", "type": "int"}, {"name": "k", "type": "Kind"}]},
+                 "c18r.Kind": {"type": "enum", "name": "Kind", "namespace": "c18r", "symbols": ["A", "B"]}}
+        for n, sch in files.items():
+            with open(os.path.join(d, n + ".avsc"), "w") as f:
+                json.dump(sch, f)
+        _REPO_DIR.append(d)
+    return _REPO_DIR[0]
+
+
+def op_load_schema_parent(fa, c, k):
+    from fastavro.schema import load_schema, to_parsing_canonical_form
+
+    return to_parsing_canonical_form(load_schema(os.path.join(_repo_dir(), "c18r.Parent.avsc")))
+
+
+KNOWN_READER_KW = {"fo", "writer_schema", "reader_schema", "return_record_name", "return_record_name_override", "handle_unicode_errors", "return_named_type", "return_named_type_override"}
+
+
+def op_sl_read_other_kwargs(fa, c, k):
+    """A plain read that passes every keyword of schemaless_reader this driver does not know about (None / boolean
+    defaults) with the opposite truth value: whatever such an option does, it concerns this call only."""
+    import inspect
+
+    extra = {}
+    for name, prm in inspect.signature(fa.schemaless_reader).parameters.items():
+        if name not in KNOWN_READER_KW and prm.kind in (prm.KEYWORD_ONLY, prm.POSITIONAL_OR_KEYWORD) and (prm.default is None or isinstance(prm.default, bool)):
+            extra[name] = not prm.default
+    return (sorted(extra), fa.schemaless_reader(io.BytesIO(k["rec2"]), c["rec"], **extra))
+
+
 OPS = [
     ("dec3_read", op_dec3_read), ("dec12_read", op_dec12_read), ("fixdec_write", op_fixdec_write),
     ("json_read_defaults", op_json_read_defaults), ("json_write", op_json_write), ("parse_raw", op_parse_raw),
@@ -315,6 +359,7 @@ OPS = [
     ("cont_write_null", op_cont_write_null), ("cont_write_bz", op_cont_write_bz), ("legacy_write", op_legacy_write), ("legacy_validate", op_legacy_validate),
     ("sl_read_deep", op_sl_read_deep), ("bytesdec_write", op_bytesdec_write), ("bytesdec_write_small", op_bytesdec_write_small),
     ("cont_write_default_marker", op_cont_write_default_marker), ("ts_naive_winter", op_ts_naive_winter), ("ts_naive_summer", op_ts_naive_summer),
+    ("load_schema_parent", op_load_schema_parent), ("sl_read_other_kwargs", op_sl_read_other_kwargs),
 ]
 CHUNKS = 16
 OPCODE_FILES = ("_logical_readers_py.py", "_logical_writers_py.py", "json_decoder.py", "parser.py", "binary_encoder.py")
@@ -322,15 +367,15 @@ OPCODE_FILES = ("_logical_readers_py.py", "_logical_writers_py.py", "json_decode
 
 def units(tier):
     idx = range(len(OPS))
-    special = set(range(14, 33))
+    special = set(range(14, 35))
     us = [("pair", a, b) for a, b in itertools.combinations_with_replacement(idx, 2)
           if (tier == "thorough" and not ({a, b} & {21, 22})) or not ({a, b} & special)
           or (a, b) in ((14, 15), (16, 17), (14, 17), (18, 18), (18, 19), (19, 19), (20, 21), (20, 20), (22, 22), (5, 22),
-                        (10, 23), (23, 24), (10, 24), (25, 25), (25, 26), (26, 26), (8, 25), (27, 27), (13, 27), (28, 28), (2, 28), (28, 29), (30, 30), (10, 30), (31, 32), (31, 31))]
+                        (10, 23), (23, 24), (10, 24), (25, 25), (25, 26), (26, 26), (8, 25), (27, 27), (13, 27), (28, 28), (2, 28), (28, 29), (30, 30), (10, 30), (31, 32), (31, 31), (33, 33), (34, 0), (34, 1), (34, 34))]
     us = [(u, c) for u in us for c in range(CHUNKS)]
     # cold start: every execution begins with a freshly imported library (first-call initialisation races);
     # deviations at the 1st, 2nd and last visit of every source line of the default execution
-    cold = [(22, 22), (8, 8), (28, 29)] if tier == "quick" else [(22, 22), (5, 5), (8, 8), (4, 4), (3, 3), (0, 1), (18, 18), (10, 11), (12, 12), (7, 7), (2, 2), (28, 28), (28, 29), (2, 28), (27, 27)]
+    cold = [(22, 22), (8, 8), (28, 29), (33, 33)] if tier == "quick" else [(22, 22), (5, 5), (8, 8), (4, 4), (3, 3), (0, 1), (18, 18), (10, 11), (12, 12), (7, 7), (2, 2), (28, 28), (28, 29), (2, 28), (27, 27), (33, 33), (5, 33)]
     us += [(("cold", a, b), 0) for a, b in cold]
     if tier == "thorough":
         us += [(u, 0) for u in [("triple", 0, 1, 2), ("triple", 0, 1, 1), ("triple", 8, 9, 10), ("triple", 3, 3, 4), ("triple", 5, 6, 7), ("triple", 12, 12, 13)]]
